@@ -1942,6 +1942,12 @@ func (s *BgpServer) handleFSMMessage(peer *peer, e *fsmMsg) {
 		}
 		s.broadcastPeerState(peer, nextState, oldState, e)
 	case fsmMsgBGPMessage:
+		// The peer may have been deleted while this message was waiting for the
+		// lock (DeletePeer holds it exclusively): nothing of a removed peer may
+		// enter the RIBs any more.
+		if p, ok := s.neighborMap[netip.MustParseAddr(peer.ID())]; !ok || p != peer {
+			return
+		}
 		m := e.MsgData.(*bgp.BGPMessage)
 		if m.Header.Type == bgp.BGP_MSG_UPDATE {
 			s.notifyRecvMessageWatcher(peer, e.timestamp, m)
